@@ -334,7 +334,93 @@ func (e *Engine) CheckProperty(prop, tier, verifDir string, verbose, writeEviden
 			results[i] = e.VerifyFunction(fn, con)
 		}(i, fn, e.CS.Funcs[k])
 	}
+	// supporting functions: the proof of a caller only uses its callees' contracts, so every /repo function whose
+	// contract was used (transitively) is verified as well; its untagged clauses (frames, structural facts) count for
+	// this property, its clauses tagged for other properties only do not.
+	supporting := map[string]bool{}
+	var supportKeys []string
+	var supportRes []*FnResult
+	if prop != "C09" && prop != "C18" {
+		short2key := map[string]string{}
+		for _, k := range e.CS.sortedKeys() {
+			short2key[shortFn(k)] = k
+		}
+		inKeys := map[string]bool{}
+		for _, k := range keys {
+			inKeys[k] = true
+		}
+		// static closure over the call graph (static callees, closures created, inlined contract-less callees)
+		var add []string
+		visited := map[string]bool{}
+		var visit func(fn *ssa.Function)
+		visit = func(fn *ssa.Function) {
+			if fn == nil || visited[fn.String()] || fn.Blocks == nil {
+				return
+			}
+			visited[fn.String()] = true
+			for _, b := range fn.Blocks {
+				for _, ins := range b.Instrs {
+					var callee *ssa.Function
+					switch x := ins.(type) {
+					case *ssa.Call:
+						callee = x.Call.StaticCallee()
+					case *ssa.Defer:
+						callee = x.Call.StaticCallee()
+					case *ssa.Go:
+						callee = x.Call.StaticCallee()
+					case *ssa.MakeClosure:
+						callee, _ = x.Fn.(*ssa.Function)
+					}
+					var cands []*ssa.Function
+					if callee != nil {
+						cands = append(cands, callee)
+					}
+					for _, op := range ins.Operands(nil) {
+						if f, ok := (*op).(*ssa.Function); ok && f != callee {
+							cands = append(cands, f) // function used as a value (handler tables, callbacks)
+						}
+					}
+					for _, callee := range cands {
+						if callee == nil || !inRepo(callee) {
+							continue
+						}
+						k := callee.String()
+						c := e.CS.Funcs[k]
+						if c == nil || c.LockOnly {
+							visit(callee) // contract-less: inlined or unknown; look through it
+							continue
+						}
+						if c.External || c.NoBody || c.Trusted || inKeys[k] {
+							continue
+						}
+						inKeys[k] = true
+						add = append(add, k)
+						visit(callee)
+					}
+				}
+			}
+		}
+		for _, k := range keys {
+			visit(e.Funcs[k])
+		}
+		_ = short2key
+		sort.Strings(add)
+		more := make([]*FnResult, len(add))
+		for i, k := range add {
+			supporting[k] = true
+			wg.Add(1)
+			go func(i int, fn *ssa.Function, con *Contract) {
+				defer wg.Done()
+				sem <- struct{}{}
+				defer func() { <-sem }()
+				more[i] = e.VerifyFunction(fn, con)
+			}(i, e.Funcs[k], e.CS.Funcs[k])
+		}
+		supportKeys, supportRes = add, more
+	}
 	wg.Wait()
+	keys = append(keys, supportKeys...)
+	results = append(results, supportRes...)
 	// lemmas
 	lemmaRes := e.checkLemmas(prop)
 	if lemmaRes != nil {
@@ -362,7 +448,7 @@ func (e *Engine) CheckProperty(prop, tier, verifDir string, verbose, writeEviden
 		}
 		hasProp := true
 		if c := e.CS.Funcs[keys[i]]; c != nil {
-			hasProp = c.Props[prop]
+			hasProp = c.Props[prop] || supporting[keys[i]]
 		}
 		nrel := 0
 		for _, o := range r.Obligations {
@@ -413,7 +499,11 @@ func (e *Engine) CheckProperty(prop, tier, verifDir string, verbose, writeEviden
 				trusted[n] = true
 			}
 		}
-		fnSummaries = append(fnSummaries, map[string]any{"func": r.Func, "file": r.File, "paths": r.Paths, "loops": r.Loops, "loops_with_invariant": r.LoopsWithInv,
+		role := "clauses of this property"
+		if supporting[keys[i]] {
+			role = "supporting: its contract is used by a function above; untagged clauses counted"
+		}
+		fnSummaries = append(fnSummaries, map[string]any{"func": r.Func, "role": role, "file": r.File, "paths": r.Paths, "loops": r.Loops, "loops_with_invariant": r.LoopsWithInv,
 			"obligations_for_property": nrel, "wall_ms": r.WallMs, "notes": r.Notes, "unsupported": r.Unsupported})
 	}
 	for _, m := range missing {
